@@ -1,5 +1,7 @@
 """Translator: SCORE_TO_ERROR_RATE of expected_errors.h -> Cutadapt/Generated/Phred.lean (bit patterns of the doubles
-and exact rationals as numerator / 2^k)."""
+and exact rationals as numerator / 2^k). The table is read off the compiled code (`expected_errors` of a one-character quality
+string returns the table entry itself), so reformatting the header does not break the tie; the literal table in the header, when
+it can still be parsed, is a cross-check."""
 import os
 import re
 import struct
@@ -7,12 +9,21 @@ from fractions import Fraction
 
 
 def generate(build_dir):
+    import importlib
+    ee = importlib.import_module("cutadapt.qualtrim").expected_errors
+    vals = []
+    for q in range(0, 94):          # printable quality characters '!' .. '~'
+        vals.append(float(ee(chr(33 + q))))
     h = open(os.path.join(build_dir, "cutadapt", "expected_errors.h")).read()
     m = re.search(r"SCORE_TO_ERROR_RATE\[(\d+)\]\s*=\s*\{(.*?)\};", h, re.S)
-    n = int(m.group(1))
-    body = re.sub(r"//[^\n]*", "", m.group(2))
-    vals = [float(x.strip().rstrip("L")) for x in body.split(",") if x.strip()]
-    assert len(vals) == n, (len(vals), n)
+    if m:
+        body = re.sub(r"//[^\n]*", "", m.group(2))
+        try:
+            lit = [float(x.strip().rstrip("L")) for x in body.split(",") if x.strip()]
+        except ValueError:
+            lit = None
+        if lit is not None:
+            assert lit == vals, "expected_errors.h: literal table and compiled behaviour disagree"
     bits = [struct.unpack("<Q", struct.pack("<d", v))[0] for v in vals]
     fr = [Fraction(v) for v in vals]
     out = ["/-! GENERATED from src/cutadapt/expected_errors.h by gen/gen_phred.py — do not edit. -/",
